@@ -41,6 +41,8 @@ use std::{
     time::Duration,
 };
 
+#[cfg(deadpool_verif)]
+use deadpool_runtime::verif;
 use tokio::sync::{Semaphore, TryAcquireError};
 
 pub use crate::Status;
@@ -68,9 +70,15 @@ impl<T> Object<T> {
     /// using the [`Pool::add()`] or [`Pool::try_add()`] methods.
     #[must_use]
     pub fn take(mut this: Self) -> T {
+        #[cfg(deadpool_verif)]
+        verif::point("unmanaged.take.enter");
         if let Some(pool) = this.pool.upgrade() {
             let _ = pool.size.fetch_sub(1, Ordering::Relaxed);
+            #[cfg(deadpool_verif)]
+            verif::point("unmanaged.take.pre_add_permits");
             pool.size_semaphore.add_permits(1);
+            #[cfg(deadpool_verif)]
+            verif::point("unmanaged.take.post_add_permits");
         }
         this.obj.take().unwrap()
     }
@@ -79,13 +87,25 @@ impl<T> Object<T> {
 impl<T> Drop for Object<T> {
     fn drop(&mut self) {
         if let Some(obj) = self.obj.take() {
+            #[cfg(deadpool_verif)]
+            verif::point("unmanaged.object_drop.enter");
             if let Some(pool) = self.pool.upgrade() {
+                #[cfg(deadpool_verif)]
+                verif::lock_point("unmanaged.object_drop.lock", || {
+                    verif::is_locked(&pool.queue)
+                });
                 {
                     let mut queue = pool.queue.lock().unwrap();
                     queue.push(obj);
                 }
+                #[cfg(deadpool_verif)]
+                verif::point("unmanaged.object_drop.post_push");
                 let _ = pool.available.fetch_add(1, Ordering::Relaxed);
+                #[cfg(deadpool_verif)]
+                verif::point("unmanaged.object_drop.pre_add_permits");
                 pool.semaphore.add_permits(1);
+                #[cfg(deadpool_verif)]
+                verif::point("unmanaged.object_drop.pre_clean_up");
                 pool.clean_up();
             }
         }
@@ -193,12 +213,24 @@ impl<T> Pool<T> {
             TryAcquireError::NoPermits => PoolError::Timeout,
             TryAcquireError::Closed => PoolError::Closed,
         })?;
+        #[cfg(deadpool_verif)]
+        verif::point("unmanaged.get.permit");
+        #[cfg(deadpool_verif)]
+        verif::lock_point("unmanaged.get.pop.lock", || {
+            verif::is_locked(&inner.queue)
+        });
         let obj = {
             let mut queue = inner.queue.lock().unwrap();
             queue.pop().unwrap()
         };
+        #[cfg(deadpool_verif)]
+        verif::point("unmanaged.get.pre_forget");
         permit.forget();
+        #[cfg(deadpool_verif)]
+        verif::point("unmanaged.get.pre_available");
         let _ = inner.available.fetch_sub(1, Ordering::Relaxed);
+        #[cfg(deadpool_verif)]
+        verif::point("unmanaged.get.post_available");
         Ok(Object {
             pool: Arc::downgrade(&self.inner),
             obj: Some(obj),
@@ -232,12 +264,24 @@ impl<T> Pool<T> {
                 .map_err(|_| PoolError::Closed),
             (Some(_), None) => Err(PoolError::NoRuntimeSpecified),
         }?;
+        #[cfg(deadpool_verif)]
+        verif::point("unmanaged.get.permit");
+        #[cfg(deadpool_verif)]
+        verif::lock_point("unmanaged.get.pop.lock", || {
+            verif::is_locked(&inner.queue)
+        });
         let obj = {
             let mut queue = inner.queue.lock().unwrap();
             queue.pop().unwrap()
         };
+        #[cfg(deadpool_verif)]
+        verif::point("unmanaged.get.pre_forget");
         permit.forget();
+        #[cfg(deadpool_verif)]
+        verif::point("unmanaged.get.pre_available");
         let _ = inner.available.fetch_sub(1, Ordering::Relaxed);
+        #[cfg(deadpool_verif)]
+        verif::point("unmanaged.get.post_available");
         Ok(Object {
             pool: Arc::downgrade(&self.inner),
             obj: Some(obj),
@@ -256,7 +300,11 @@ impl<T> Pool<T> {
     pub async fn add(&self, object: T) -> Result<(), (T, PoolError)> {
         match self.inner.size_semaphore.acquire().await {
             Ok(permit) => {
+                #[cfg(deadpool_verif)]
+                verif::point("unmanaged.add.permit");
                 permit.forget();
+                #[cfg(deadpool_verif)]
+                verif::point("unmanaged.add.post_forget");
                 self._add(object);
                 Ok(())
             }
@@ -274,7 +322,11 @@ impl<T> Pool<T> {
     pub fn try_add(&self, object: T) -> Result<(), (T, PoolError)> {
         match self.inner.size_semaphore.try_acquire() {
             Ok(permit) => {
+                #[cfg(deadpool_verif)]
+                verif::point("unmanaged.add.permit");
                 permit.forget();
+                #[cfg(deadpool_verif)]
+                verif::point("unmanaged.add.post_forget");
                 self._add(object);
                 Ok(())
             }
@@ -292,12 +344,24 @@ impl<T> Pool<T> {
     /// the `size_semaphore`.
     fn _add(&self, object: T) {
         let _ = self.inner.size.fetch_add(1, Ordering::Relaxed);
+        #[cfg(deadpool_verif)]
+        verif::point("unmanaged._add.post_size");
+        #[cfg(deadpool_verif)]
+        verif::lock_point("unmanaged._add.lock", || {
+            verif::is_locked(&self.inner.queue)
+        });
         {
             let mut queue = self.inner.queue.lock().unwrap();
             queue.push(object);
         }
+        #[cfg(deadpool_verif)]
+        verif::point("unmanaged._add.post_push");
         let _ = self.inner.available.fetch_add(1, Ordering::Relaxed);
+        #[cfg(deadpool_verif)]
+        verif::point("unmanaged._add.pre_add_permits");
         self.inner.semaphore.add_permits(1);
+        #[cfg(deadpool_verif)]
+        verif::point("unmanaged._add.post_add_permits");
     }
 
     /// Removes an [`Object`] from this [`Pool`].
@@ -321,8 +385,14 @@ impl<T> Pool<T> {
     /// All current and future tasks waiting for [`Object`]s will return
     /// [`PoolError::Closed`] immediately.
     pub fn close(&self) {
+        #[cfg(deadpool_verif)]
+        verif::point("unmanaged.close.enter");
         self.inner.semaphore.close();
+        #[cfg(deadpool_verif)]
+        verif::point("unmanaged.close.post_sem_close");
         self.inner.size_semaphore.close();
+        #[cfg(deadpool_verif)]
+        verif::point("unmanaged.close.pre_clear");
         self.inner.clear();
     }
 
@@ -348,6 +418,49 @@ impl<T> Pool<T> {
             },
         }
     }
+}
+
+#[cfg(deadpool_verif)]
+impl<T> Pool<T> {
+    /// Read-only view of the internal bookkeeping for the simulator.
+    ///
+    /// Returns `None` while the queue is locked. The `visit` function
+    /// is called for every queued object (bottom to top of the stack).
+    pub fn verif_snapshot(&self, visit: &mut dyn FnMut(&T)) -> Option<VerifSnapshot> {
+        let queue = self.inner.queue.try_lock().ok()?;
+        for obj in queue.iter() {
+            visit(obj);
+        }
+        Some(VerifSnapshot {
+            permits: self.inner.semaphore.available_permits(),
+            size_permits: self.inner.size_semaphore.available_permits(),
+            closed: self.inner.semaphore.is_closed(),
+            size_closed: self.inner.size_semaphore.is_closed(),
+            size: self.inner.size.load(Ordering::Relaxed),
+            available: self.inner.available.load(Ordering::Relaxed),
+            queue: queue.len(),
+        })
+    }
+}
+
+/// Internal bookkeeping as reported by `Pool::verif_snapshot`.
+#[cfg(deadpool_verif)]
+#[derive(Clone, Copy, Debug, Eq, PartialEq)]
+pub struct VerifSnapshot {
+    /// Permits available in the object semaphore.
+    pub permits: usize,
+    /// Permits available in the size semaphore.
+    pub size_permits: usize,
+    /// Whether the object semaphore is closed.
+    pub closed: bool,
+    /// Whether the size semaphore is closed.
+    pub size_closed: bool,
+    /// The `size` counter.
+    pub size: usize,
+    /// The `available` counter.
+    pub available: isize,
+    /// Length of the queue.
+    pub queue: usize,
 }
 
 #[derive(Debug)]
@@ -377,12 +490,16 @@ impl<T> PoolInner<T> {
     /// don't contain any [`Object`]s.
     fn clean_up(&self) {
         if self.is_closed() {
+            #[cfg(deadpool_verif)]
+            verif::point("unmanaged.clean_up.pre_clear");
             self.clear();
         }
     }
 
     /// Removes all the [`Object`]s which are currently part of this [`Pool`].
     fn clear(&self) {
+        #[cfg(deadpool_verif)]
+        verif::lock_point("unmanaged.clear.lock", || verif::is_locked(&self.queue));
         let mut queue = self.queue.lock().unwrap();
         let _ = self.size.fetch_sub(queue.len(), Ordering::Relaxed);
         let _ = self
